@@ -277,7 +277,7 @@ def check_moves(ck, P, rid):
     ck.expect(rid, n_sites, 3, "array_truncate_first / array_add_at expansions")
 
 
-def check_cached_items(ck, P, rid):
+def check_cached_items(ck, P, rid, only=None):
     """heap_insert / heap_extract keep the element array in a local (`items`).  The array may be reallocated (array_expand, array_reserve,
     array_shrink) only BEFORE that local is loaded: afterwards the local would point to the freed block."""
     cfg = P.config
@@ -286,18 +286,25 @@ def check_cached_items(ck, P, rid):
         if not f.file.startswith("src/"):
             continue
         for s0 in f.walk():
-            if s0.k != "StmtExpr" or not s0.macros or s0.macros[0] not in ("heap_insert", "heap_extract", "heap_insert_n"):
+            if s0.k != "StmtExpr" or not s0.macros or s0.macros[0] not in ("heap_insert", "heap_extract", "heap_insert_n", "array_add_at", "array_push"):
+                continue
+            if only and s0.macros[0] not in only:
                 continue
             body = s0.children[0]
             cache = None
             for k, st in enumerate(body.children):
                 for v in st.children if st.k == "DeclStmt" else []:
                     init = X.strip(v.children[-1], casts=True) if v.k == "VarDecl" and v.children else None
-                    if init is not None and init.k == "MemberExpr" and init.name == "items" and cache is None:
+                    if init is None or cache is not None:
+                        continue
+                    if init.k == "MemberExpr" and init.name == "items":
                         cache = (k, v)
+                    elif (v.d.get("tp") or "*" in (v.t or "")) and any(x.k == "MemberExpr" and x.name == "items" for x in init.walk()):
+                        cache = (k, v)          # a pointer into the element array (&items[i], items + i)
             if cache is None:
                 continue
-            n += 1
+            if s0.macros[0] in ("heap_insert", "heap_extract", "heap_insert_n"):
+                n += 1
             inst = "cached-items:%s@%s" % (s0.macros[0], f.name)
             k0, v = cache
             last_use = max([k for k, st in enumerate(body.children) if any(x.k == "DeclRefExpr" and x.did == v.did for x in st.walk())] or [k0])
@@ -315,4 +322,5 @@ def check_cached_items(ck, P, rid):
                             "sift loop reads and writes freed memory" % (bad.macros[0] if bad.k == "StmtExpr" else bad.callee, v.name), cfg)
             else:
                 ck.holds(rid, inst, s0.where, "no reallocation of the array between caching its address in `%s` and the last use of the copy" % v.name, cfg)
-    ck.expect(rid, n, 6, "heap operations that cache the element array")
+    if not only:
+        ck.expect(rid, n, 6, "heap operations that cache the element array")
